@@ -287,3 +287,21 @@ PROPS['C06'] = dict(
     assumptions=COMMON_ASSUME,
     pending_theorems=['table_attained (every entry is the cost of an extraction tree) — attainment is shown per run by the implementation\'s own extracted term'],
 )
+
+PROPS['C14'] = dict(
+    level='translation_validation',
+    module='SlotVerif.Props.C14',
+    suites=[dict(name='ana', variant='default', shrink=False, quick=dict(count=160, timeout=900), thorough=dict(count=4000, timeout=3000)),
+            dict(name='ana', variant='checks', shrink=False, quick=dict(count=60, timeout=900), thorough=dict(count=1000, timeout=3000))],
+    rule='corr.analysis.fixpoint: per generated case four runs: (1,2) an insertion/union history (C01 generator) under the min-size '
+         'and the min-depth analysis, checkpoint after EVERY operation; (3,4) arithmetic start terms + 2-6 pool rules + 1-3 rewrite '
+         'iterations under constant folding (values mod 7, modify hook inserts the number and unions it) and under min-size, '
+         'checkpoint after every iteration. At a checkpoint the state is dumped with every class\'s datum and the Lean model decides: '
+         'every live class carries exactly the join over its e-nodes of make(children\'s current data) (all classes, not a sample); '
+         'for min-size the datum equals the checked cheapest AstSize cost (C06 table); for const a class with datum v holds the number '
+         'node v and no other number. Harness predicates: classes that compare equal share one datum; after a union the datum is at '
+         'least as good as the join of both sides. Quick tier evaluates every second checkpoint and the last. '
+         'non-trivial = the state has at least 4 classes; distinct = by hash of the case line',
+    trusted_base=EG_TRUST + ['the three analyses are written twice (Rust in the harness, Lean in Model/Analysis.lean); their agreement is exactly what the per-run fixpoint check exercises'],
+    assumptions=COMMON_ASSUME + ['constant folding is only run on histories of model-valid rewrites (its merge is a join only on compatible data)'],
+)
